@@ -582,3 +582,65 @@ Fixpoint wcomm_ok (S : nat) (cl rl : list nat) (live : nat -> list nat) (ops : l
 
 Definition wpeers_below (P : nat) (ops : list wop) : bool :=
   forallb (fun o => match o with WSend _ p _ => Nat.ltb p P | WClose _ => true end) ops.
+
+(* ------------------------------------------------------------------------------------------ *)
+(* Part 7.  Registration CONCURRENT with release (comm/p2p/manager.go: AddStream, Stream and
+   ReleaseStreams each run under the manager's lock from beginning to end, so whatever overlaps in
+   time takes effect in SOME sequential order).  A late sender of a session may register a stream
+   while the session is being released: before the release it is closed by it, after the release it
+   stays registered - under the session id - until the next release of that id.  So for EVERY order of
+   the operations: once every session has been released a last time ([release_all]) every stream
+   that was ever registered has been closed and the registry is empty.                          *)
+Definition sm_exec (P : nat) (st : sst) (ops : list sop) : sst := fold_left (sm_step P) ops st.
+
+Definition release_all (S : nat) : list sop := map ORelease (seq 0 S).
+
+(* every AddStream is for a session below S and a peer below P *)
+Definition adds_below (S P : nat) (ops : list sop) : bool :=
+  forallb (fun o => match o with OAdd s p _ => Nat.ltb s S && Nat.ltb p P | _ => true end) ops.
+
+(* the stream an operation registers: AddStream for a slot (session, peer) that is free *)
+Definition accepts (m : smap) (o : sop) : list nat :=
+  match o with
+  | OAdd s p x => match m s p with None => [x] | Some _ => [] end
+  | _ => []
+  end.
+
+(* ... and all the streams a sequence of operations registers *)
+Fixpoint accepted (P : nat) (st : sst) (ops : list sop) : list nat :=
+  match ops with
+  | [] => []
+  | o :: r => accepts (fst st) o ++ accepted P (sm_step P st o) r
+  end.
+
+Definition sst0 : sst := (sm_empty, fun _ => 0).
+
+(* every stream 0..X-1 is registered by the sequence (the harness offers every stream it creates
+   for a free slot) *)
+Definition all_accepted (P X : nat) (ops : list sop) : bool :=
+  forallb (fun x => memb x (accepted P sst0 ops)) (seq 0 X).
+
+Definition is_none (o : option nat) : bool := match o with None => true | Some _ => false end.
+
+(* THE JUDGE of a run with overlapping operations, on what is seen at the very end (after the last
+   release of every session): every stream has been closed, the registry holds nothing. *)
+Definition srace_ok (closed : list nat) (left : list (list (option nat))) : bool :=
+  forallb (Nat.leb 1) closed && forallb (forallb is_none) left.
+
+(* ------------------------------------------------------------------------------------------ *)
+(* Part 8.  A duplicate request for a session that has been live for a long time.  The pending
+   entry of Part 1 carries no time: it is set on admission and cleared by the cleanup of the SAME
+   call, however long the session lives in between (a session whose first attempt fails with a
+   retryable error - SubsetError, CommunicationError, tss.Error, CoordinatorError - gets a fresh
+   TssTimeout for its retry phase in Coordinator.handleError and can live for up to twice the
+   timeout).  Thread 0 = the long-lived session, thread 1 = the duplicate: four steps each.      *)
+Definition long_sched : list sev := repeat (Step 0) 4 ++ repeat (Step 1) 4.
+
+Definition long_dup_refused : bool :=
+  pc_eqb (pcs (exec New (fun _ => 0) long_sched (init New)) 1) PRefused.
+
+(* THE JUDGE of a long case: first_live = the first Execute had not returned when the duplicate
+   was decided; dup_admitted = the duplicate was not refused; maxlive = processes of the id inside Run
+   at the same time; then, after everything ended, the pending flag and whether the id is admitted again *)
+Definition long_ok (first_live dup_admitted : bool) (maxlive : nat) (pend_after reuse : bool) : bool :=
+  negb (first_live && dup_admitted) && Nat.leb maxlive 1 && negb pend_after && reuse.
